@@ -270,7 +270,7 @@ func (fr *Frame) loopHead(l *Loop, st *State) {
 			if strings.HasPrefix(k, "seen:") || strings.HasPrefix(k, "seencnt:") {
 				continue
 			}
-			if (k == "held" || k == "rheld") && !hasSync {
+			if (k == "held" || k == "rheld" || k == "relsd") && !hasSync {
 				continue
 			}
 			st.ghosts[k] = fc.sc.Fresh("g_"+k, g.Sort)
